@@ -192,6 +192,9 @@ func (tc *TemplateChecker) observe(e *Env, pol int) (string, map[string]any) {
 			desc[k] = err.Error()
 		}
 	}
+	if selfTest == "tmpl-fee" && len(t.Fees) > 1 {
+		t.Fees[1]++
+	}
 	rec := fmt.Sprintf("[pol |-> %d, failed |-> FALSE, sel |-> %s, fees |-> %s, sigops |-> %s, cbextra |-> %d, weight |-> %d, sigtotal |-> %d, hascommit |-> %s, commitok |-> %s, valid |-> %s, validtime |-> %s, validnonce |-> %s, height |-> %d]",
 		pol+1, seqInts(sel), seqInts(t.Fees), seqInts(t.SigOpCosts), cbv-blockchain.CalcBlockSubsidy(t.Height, c.Params), weight, sigtotal, b2s(hasCommit), b2s(commitOK), b2s(v1 == nil), b2s(v2 == nil), b2s(v3 == nil), t.Height)
 	return rec, desc
